@@ -446,7 +446,7 @@ package @pkg@
 @*/
 
 /*@ func types/@pkg@.ToUnitary$1
-  props C20
+  props C20 C16
   requires (and (not (= {delegate} vnil)) (not (= {log} vnil)))
   ghost called : Bool := false
   at call(OnInitialize) assert [only-for-exactly-one-object-and-with-that-object] (and (= (slen {objs}) 1) (= $0 (select (sarr {objs}) 0)) (not called))
@@ -454,7 +454,7 @@ package @pkg@
   exit [delegates-exactly-when-there-is-exactly-one-object] (= called (= (slen {objs}) 1))
 @*/
 /*@ func types/@pkg@.ToUnitary$2
-  props C20
+  props C20 C16
   requires (not (= {delegate} vnil))
   ghost called : Bool := false
   at call(OnCreate) assert [delegates-create-with-the-same-object] (and (= $0 {obj}) (not called))
@@ -462,7 +462,7 @@ package @pkg@
   exit [always-delegates-once] called
 @*/
 /*@ func types/@pkg@.ToUnitary$3
-  props C20
+  props C20 C16
   requires (not (= {delegate} vnil))
   ghost called : Bool := false
   at call(OnUpdate) assert [delegates-update-with-the-same-object] (and (= $0 {obj}) (not called))
@@ -470,7 +470,7 @@ package @pkg@
   exit [always-delegates-once] called
 @*/
 /*@ func types/@pkg@.ToUnitary$4
-  props C20
+  props C20 C16
   requires (not (= {delegate} vnil))
   ghost called : Bool := false
   at call(OnDelete) assert [delegates-delete-with-the-same-object] (and (= $0 {obj}) (not called))
